@@ -13,6 +13,7 @@ delegates to the real methods, and the value returned / exception raised by the 
 from __future__ import annotations
 
 import asyncio
+import threading
 import math
 import sys
 from typing import Any
@@ -97,6 +98,7 @@ class FalsyValue(Value):
         return 0
 
 
+_HANG = object()      # the scripted operation does not come back (attempt timeout fires)
 LOOP_MODE = False     # True while a scenario runs under a real asyncio event loop
 
 
@@ -247,6 +249,12 @@ class Env:
         self.sleeper_exc = None
         self.bsleep_exc = None
         self.none_pending = self.none_result = None
+        self.hang_n = None
+        self.hang_objs = []
+        old = getattr(self, "hang_release", None)
+        if old is not None:
+            old.set()                 # let the abandoned worker threads of the previous run go
+        self.hang_release = threading.Event()
         self.site_calls = {}          # fault injection counts the calls of a site within one run / call
 
     # ------------------------------------------------------------------ operation
@@ -262,6 +270,13 @@ class Env:
                            "ra": sc["ra"], "dur": sc["dur"], "t1": self.now()})
         out = sc["out"]
         self.none_pending = None
+        if out == "hang":
+            # attempt_timeout_s fires: the clock has already moved on by the timeout (dur)
+            self.hang_n = n
+            if self.is_async:
+                return _HANG               # aop() awaits something that never happens
+            self.hang_release.wait(20.0)   # worker thread of the sync runner; released after the run
+            raise AssertionError("the abandoned attempt's outcome must never be looked at")
         vcls = FalsyValue if self.flavours and n % 2 == 1 else Value
         if self.flavours and self.is_async and n % 2 == 0:
             vcls = AwaitableValue
@@ -333,7 +348,10 @@ class Env:
 
     async def aop(self) -> Any:
         await _Suspend("op")
-        return self.op()
+        r = self.op()
+        if r is _HANG:
+            await asyncio.get_running_loop().create_future()      # until the runner cancels it
+        return r
 
     # ------------------------------------------------------------------ classifiers
     def _classification(self, k: str, ra: int):
@@ -655,6 +673,16 @@ class Env:
         for r, n in zip(self.raised, self.raised_n):     # identity = the attempt that raised it first
             if exc is r:
                 return n
+        hn = getattr(self, "hang_n", None)
+        if hn is not None and type(exc) is TimeoutError and hn == self.ninv:
+            # the attempt in progress does not come back: the TimeoutError the runner made for it
+            # is that attempt's own exception from its first sighting on (a later sighting of the
+            # same object under another attempt, or a second object for this one, is NOT_OURS)
+            self.hang_n = None
+            self.hang_objs.append(exc)
+            self.raised.append(exc)
+            self.raised_n.append(hn)
+            return hn
         return NOT_OURS
 
     def _val_id(self, v: Any) -> int:
@@ -685,6 +713,8 @@ class Env:
         if eid != NOT_OURS and eid != NONE:
             if isinstance(exc, OpError):
                 return self._view(kind="exc", id=eid, own=self._tb_reaches_op(exc))
+            if any(exc is h for h in self.hang_objs):
+                return self._view(kind="exc", id=eid, own=True)    # the runner's own TimeoutError
             if isinstance(exc, AbortRetryError):
                 return self._view(kind="abort", own=True)
             return self._view(kind="cancel", id=eid, own=True)
@@ -716,7 +746,8 @@ class Env:
 # ---------------------------------------------------------------------------
 # building the real objects
 # ---------------------------------------------------------------------------
-def retry_kwargs(env: Env, cfg: dict, *, place: str = "call", atimeout: bool = False) -> tuple[dict, dict]:
+def retry_kwargs(env: Env, cfg: dict, *, place: str = "call", atimeout: bool = False,
+                 hang: float | None = None) -> tuple[dict, dict]:
     """-> (constructor kwargs for Retry/AsyncRetry/RetryPolicy..., per-call kwargs)"""
     EC = env.EC
     ctor: dict[str, Any] = dict(
@@ -745,6 +776,11 @@ def retry_kwargs(env: Env, cfg: dict, *, place: str = "call", atimeout: bool = F
                     env.owned.append(ctor[key])
     if atimeout:
         ctor["attempt_timeout_s"] = 500.0        # never fires: operations finish at once
+    if hang is not None:
+        # fires for every "hang" outcome.  Async: ATimeout ticks on the virtual clock the event
+        # loop reads.  Sync: the worker thread is waited for in real time (the virtual clock is
+        # moved by the operation), so the value only has to be long enough for the thread to start
+        ctor["attempt_timeout_s"] = hang
     call: dict[str, Any] = dict(
         on_metric=None if getattr(env, "single_sink", None) == "log" else env.on_metric, on_log=env.on_log,
         operation="op" if cfg["opname"] else None,
@@ -952,7 +988,8 @@ def run_scenario(cfg: dict, events: list[dict], *, entry: str, perm=None, place:
                  force_mode: str | None = None, timeline: bool = False, atimeout: bool = False,
                  loop: bool = False, breaker_cfg: dict | None = None,
                  flavours: str | None = None, entry2: str | None = None,
-                 sinks: str | None = None, nosleeper: bool = False, broken_metric: bool = False) -> list[dict]:
+                 sinks: str | None = None, nosleeper: bool = False, broken_metric: bool = False,
+                 hang: float | None = None) -> list[dict]:
     """Execute the scenario through one entry point of the real library; returns the observed
     event list (same vocabulary as M's behaviours)."""
     is_async = entry.startswith(("Async", "async"))
@@ -961,7 +998,7 @@ def run_scenario(cfg: dict, events: list[dict], *, entry: str, perm=None, place:
     env.site_fault = site_fault
     env.flavours = flavours
     env.single_sink = sinks
-    ctor, call = retry_kwargs(env, cfg, place=place, atimeout=atimeout)
+    ctor, call = retry_kwargs(env, cfg, place=place, atimeout=atimeout, hang=hang)
     if broken_metric:
         # a metric hook that cannot even be called with the documented arguments (a C-level callable:
         # the TypeError has no Python frame of the hook's own)
@@ -1022,6 +1059,8 @@ def run_scenario(cfg: dict, events: list[dict], *, entry: str, perm=None, place:
             env.trace.append({"e": "deliver", "mode": mode, "v": view, "t": env.now(), "gap": gap})
             if gap:
                 env.clock.advance(gap)
+    if getattr(env, "hang_release", None) is not None:
+        env.hang_release.set()
     return env.trace
 
 
